@@ -33,9 +33,37 @@ HAND = [
  (["param (...q)\nc := 1", "return [q, c]"], "return [q, c]"),
 ]
 
+FOLDABLE = [("len", 'len("abc")'), ("int", 'int("2")'), ("uint", 'uint("2")'), ("char", "char(65)"), ("float", 'float("1.5")'),
+            ("string", "string(65)"), ("bool", "bool(0)"), ("bytes", 'bytes("a")'), ("contains", 'contains("abc", "b")'),
+            ("typeName", "typeName(1)"), ("sprintf", 'sprintf("%d", 1)'), ("isInt", "isInt(1)"), ("error", 'error("x")'), ("isError", "isError(1)")]
+
+def shadow_sessions(rng, tier):
+    """a builtin name bound by every top-level binding form in one fragment and used - called on
+    constant arguments, at top level and inside a function literal, and read as a value - in a
+    later fragment: the name must keep the meaning the earlier fragment gave it"""
+    out = []
+    binds = ["%s := 5", "var %s = 5", "var %s", "const %s = 5", "const (\n  a0 = iota\n  %s\n)", "const k0 = 7\nconst %s = k0",
+             "const %s = 2 + 3", "const %s = \"s\" + \"t\"", "global %s", "%s := func(...a) { return [\"mine\", a] }", "x0, %s := [1, 2]",
+             "const (\n  %s = iota\n  b0\n)", "param %s"]
+    names = FOLDABLE if tier != "quick" else rng.sample(FOLDABLE, 6)
+    for name, call in names:
+        for b in binds:
+            bind = b % name
+            uses = ["return %s" % call, "f9 := func() { return %s }\nreturn f9()" % call, "return [%s]" % name,
+                    "y9 := %s\nreturn y9" % call]
+            for u in uses:
+                frags = [bind, u] if rng.randrange(2) else [bind, "z9 := 1", u]
+                if not bind.startswith("param") and rng.randrange(3) == 0: frags = ["w9 := 0"] + frags
+                out.append((frags, "return 0"))
+    return out
+
 def run(rep, br, proofs, rng, tier):
     n = 250 if tier == "quick" else 5000
     cases = []
+    for i, (frags, probe) in enumerate(shadow_sessions(rng, tier)):
+        for opt in ("opt", "noopt"):
+            c = mk_case("s%d.%s" % (i, opt), "evalseq", opt, ["frags"] + [hexs(f.encode()) for f in frags], hexs(probe.encode()), *[hexs(m.encode()) for m in MODS])
+            c["frags"], c["probe"] = frags, probe; cases.append(c)
     for i, (frags, probe) in enumerate(HAND):
         for opt in ("opt", "noopt"):
             c = mk_case("h%d.%s" % (i, opt), "evalseq", opt, ["frags"] + [hexs(f.encode()) for f in frags], hexs(probe.encode()), *[hexs(m.encode()) for m in MODS])
@@ -99,7 +127,7 @@ def run(rep, br, proofs, rng, tier):
         rep.violation({"property": "C10", "kind": "oracle", "why": why, "case": c["line"][:2000], "script": "\n//CUT\n".join(c["frags"]) + "\n//PROBE\n" + c["probe"]})
     rep.coverage.update({
         "evaluations": len(cases), "distinct_nontrivial": compared,
-        "rule": "hand-made sessions (closure capture across a cut, const/iota groups, slot reuse after blocks, imports, per-iteration closures, destructuring, try, globals, shadowed builtins, a failing fragment, params) and generated top-level statement lists cut at 1-4 random statement boundaries, fragments optionally ending in `return <expr>`; each fragment's value or error (name, message) and printed output in one Eval session is compared with the concatenation of the fragments so far run as one script on a fresh VM, and a probe fragment returning every declared name is compared at the end; non-trivial = fragment results compared",
+        "rule": "hand-made sessions (closure capture across a cut, const/iota groups, slot reuse after blocks, imports, per-iteration closures, destructuring, try, globals, shadowed builtins, a failing fragment, params), sessions binding a builtin name by every top-level binding form (:=, var, const literal / iota / alias / folded expression, global, function value, destructuring, param) and using it in a later fragment (called on constant arguments at top level and in a function literal, read as a value) and generated top-level statement lists cut at 1-4 random statement boundaries, fragments optionally ending in `return <expr>`; each fragment's value or error (name, message) and printed output in one Eval session is compared with the concatenation of the fragments so far run as one script on a fresh VM, and a probe fragment returning every declared name is compared at the end; non-trivial = fragment results compared",
         "samples": ["\n//CUT\n".join(cases[0]["frags"]), "\n//CUT\n".join(cases[len(HAND)*2]["frags"])],
         "sessions": len(cases), "fragment_results_compared": compared, "oracle_failures": len(fails)})
 
